@@ -9,6 +9,7 @@ import (
 
 	"github.com/invopop/gobl"
 	"github.com/invopop/gobl/dsig"
+	"github.com/invopop/gobl/head"
 	"github.com/invopop/gobl/internal/iotools"
 )
 
@@ -32,8 +33,14 @@ func Verify(ctx context.Context, in io.Reader, key *dsig.PublicKey) error {
 	if !env.Signed() {
 		return wrapErrorf(http.StatusUnprocessableEntity, "envelope is not signed")
 	}
-	if err := env.Signatures[0].VerifyPayload(key, env); err != nil {
+	// Check the signature against the key *and* ensure the signed headers
+	// are still contained in the envelope's current headers.
+	h := new(head.Header)
+	if err := env.Signatures[0].VerifyPayload(key, h); err != nil {
 		return wrapError(http.StatusUnprocessableEntity, err)
+	}
+	if !env.Head.Contains(h) {
+		return wrapErrorf(http.StatusUnprocessableEntity, "header mismatch")
 	}
 	return nil
 }
